@@ -385,12 +385,12 @@ func docsStream(c *common.Ctx) {
 		thor  int
 	}
 	plans := []plan{
-		{genCfg{format: "swagger", stream: "oas2-valid", endpoints: true}, 60, 1500},
-		{genCfg{format: "swagger", stream: "oas2-required3", minRequired: 3}, 30, 600},
-		{genCfg{format: "swagger", stream: "oas2-hostile-names", hostileProp: 5, hostileType: 3}, 60, 1500},
-		{genCfg{format: "swagger", stream: "oas2-keywords", keywordProp: 5}, 30, 600},
-		{genCfg{format: "xsd", stream: "xsd-valid"}, 40, 800},
-		{genCfg{format: "xsd", stream: "xsd-hostile-names", hostileProp: 4, hostileType: 3, keywordProp: 2}, 30, 600},
+		{genCfg{format: "swagger", stream: "oas2-valid", endpoints: true}, 40, 1500},
+		{genCfg{format: "swagger", stream: "oas2-required3", minRequired: 3}, 20, 600},
+		{genCfg{format: "swagger", stream: "oas2-hostile-names", hostileProp: 5, hostileType: 3}, 40, 1500},
+		{genCfg{format: "swagger", stream: "oas2-keywords", keywordProp: 5}, 20, 600},
+		{genCfg{format: "xsd", stream: "xsd-valid"}, 25, 800},
+		{genCfg{format: "xsd", stream: "xsd-hostile-names", hostileProp: 4, hostileType: 3, keywordProp: 2}, 20, 600},
 	}
 	// the arr.ai importers (OpenAPI 3, SQL) take seconds per document: they run in their own workers, in
 	// parallel with everything else; their documents are drawn first so that the seed fixes them
@@ -461,6 +461,11 @@ func docsStream(c *common.Ctx) {
 		}
 	}
 	run := func(d doc) { finish(d, judgeDoc(c, d)) }
+	t0 := time.Now()
+	lap := func(what string) {
+		c.Res.Notes = append(c.Res.Notes, fmt.Sprintf("%s: %.1fs", what, time.Since(t0).Seconds()))
+		t0 = time.Now()
+	}
 	for _, p := range plans {
 		n := p.quick
 		if c.Thorough() {
@@ -472,9 +477,10 @@ func docsStream(c *common.Ctx) {
 		for i := 0; i < n; i++ {
 			run(genDoc(c.Rng, p.cfg))
 		}
+		lap(p.cfg.stream)
 	}
 	// recursive types: their own small stream
-	nrec := 2
+	nrec := 1
 	if c.Thorough() {
 		nrec = 10
 	}
@@ -482,7 +488,9 @@ func docsStream(c *common.Ctx) {
 		run(genDoc(c.Rng, genCfg{format: "swagger", stream: "oas2-recursive", recursive: true}))
 		run(genDoc(c.Rng, genCfg{format: "xsd", stream: "xsd-recursive", recursive: true}))
 	}
+	lap("recursive")
 	wg.Wait()
+	lap("waiting for the arr.ai lanes")
 	for _, r := range arraiResults {
 		finish(r.d, mergeDoc(c, r.d, r.o, r.died, r.timedOut, r.stderr))
 	}
